@@ -299,10 +299,21 @@ Proof.
   discriminate.
 Qed.
 
-Definition demo7 : list op :=
-  [OpAdd 2 200 [(10%N, 1%N)] []; OpAdd 3 150 [(11%N, 1%N)] []; OpAdd 4 400 [(20%N, 2%N); (21%N, 3%N)] [];
-   OpSet 1 0 10 100; OpSet 2 20 (-8) 100; OpSet 3 0 (-12) 100; OpSet 4 0 (31990) 100].
-Definition demo_G : book := Eval cbv beta iota delta [run fold_left demo7] in run true bd0 (newBook 1 100) demo7.
+Definition do1 : op := OpAdd 2 200 [(10%N, 1%N)] [].
+Definition do2 : op := OpAdd 3 150 [(11%N, 1%N)] [].
+Definition do3 : op := OpAdd 4 400 [(20%N, 2%N); (21%N, 3%N)] [].
+Definition do4 : op := OpSet 1 0 10 100.
+Definition do5 : op := OpSet 2 20 (-8) 100.
+Definition do6 : op := OpSet 3 0 (-12) 100.
+Definition do7 : op := OpSet 4 0 31990 100.
+Definition dg0 : book := newBook 1 100.
+Definition dg1 : book := apply_op true bd0 dg0 do1.
+Definition dg2 : book := apply_op true bd0 dg1 do2.
+Definition dg3 : book := apply_op true bd0 dg2 do3.
+Definition dg4 : book := apply_op true bd0 dg3 do4.
+Definition dg5 : book := apply_op true bd0 dg4 do5.
+Definition dg6 : book := apply_op true bd0 dg5 do6.
+Definition demo_G : book := apply_op true bd0 dg6 do7.
 Definition demo_sl : list (N * list (N * N)) :=
   [(1%N, [(10%N, 2%N); (11%N, 3%N)]); (2%N, [(20%N, 4%N)]); (3%N, [(21%N, 4%N)]); (4%N, [])].
 Definition demo_read : op := OpRead (serializeBook demo_G) [(1%N, 7%N); (2%N, 5%N); (3%N, 9%N); (4%N, 3%N)] demo_sl.
@@ -320,37 +331,61 @@ Proof.
     destruct H as [[-> [-> ->]]|[[-> [-> ->]]|[[-> [-> ->]]|[-> [-> ->]]]]]; vm_compute; tauto.
 Qed.
 
-Example demo_steps_ok : steps_ok demo_succ bd0 (newBook 1 100) (demo7 ++ [demo_read]).
-Proof.
-  pose proof demo_ops_ok as W. unfold demo_ops in W. cbn [ops_ok] in W.
-  destruct W as [W1 [W2 [W3 [W4 [W5 [W6 [W7 _]]]]]]].
-  unfold demo7, demo_read, demo_G. cbn [app steps_ok op_ok2].
-  assert (C : forall h pl, (forall p m, demo_succ p m = Some h -> In (m, p) pl) ->
-              forall (g : book) p m, In p (bk_keys g) -> demo_succ p m = Some h -> In (m, p) pl) by (intros; eauto).
-  split. { split; [exact W1|]. split; [vm_compute; reflexivity|]. split.
-           - intros p m _ H. apply demo_succ_cases_m in H. destruct H as [[-> [-> E]]|[[-> [-> E]]|[[-> [-> E]]|[-> [-> E]]]]]; try discriminate. left; reflexivity.
-           - intros m c K H. apply demo_succ_cases_m in H. vm_compute in K. destruct H as [[E _]|[[E _]|[[_ [_ E]]|[E _]]]]; try discriminate; destruct K as [<-|[]]; discriminate. }
-  split. { vm_compute. reflexivity. }
-  split. { split; [exact W2|]. split; [vm_compute; reflexivity|]. split.
-           - intros p m _ H. apply demo_succ_cases_m in H. destruct H as [[-> [-> E]]|[[-> [-> E]]|[[-> [-> E]]|[-> [-> E]]]]]; try discriminate. left; reflexivity.
-           - intros m c K H. apply demo_succ_cases_m in H. vm_compute in K. destruct H as [[E _]|[[E _]|[[E _]|[_ [_ E]]]]]; try discriminate; destruct K as [<-|[<-|[]]]; discriminate. }
-  split. { vm_compute. reflexivity. }
-  split. { split; [exact W3|]. split; [vm_compute; reflexivity|]. split.
-           - intros p m _ H. apply demo_succ_cases_m in H. destruct H as [[-> [-> E]]|[[-> [-> E]]|[[-> [-> E]]|[-> [-> E]]]]]; try discriminate; [left; reflexivity|right; left; reflexivity].
-           - intros m c _ H. apply demo_succ_cases_m in H. destruct H as [[E _]|[[E _]|[[E _]|[E _]]]]; discriminate. }
-  split. { vm_compute. reflexivity. }
-  split. { split; [exact W4|]. split; vm_compute; reflexivity. }
-  split. { vm_compute. reflexivity. }
-  split. { split; [exact W5|]. split; vm_compute; reflexivity. }
-  split. { vm_compute. reflexivity. }
-  split. { split; [exact W6|]. split; vm_compute; reflexivity. }
-  split. { vm_compute. reflexivity. }
-  split. { split; [exact W7|]. split; vm_compute; reflexivity. }
-  split. { vm_compute. reflexivity. }
-  split. { pose proof demo_read_ok as R. unfold demo_G in R. exact R. }
-  split. { vm_compute. reflexivity. }
-  exact I.
-Qed.
+Ltac notin_keys := let K := fresh "K" in intro K; vm_compute in K; repeat (destruct K as [K|K]; [discriminate K|]); exact K.
+
+Ltac succ_cases H :=
+  let E1 := fresh "E" in let E2 := fresh "E" in let E3 := fresh "E" in
+  apply demo_succ_cases_m in H; destruct H as [[E1 [E2 E3]]|[[E1 [E2 E3]]|[[E1 [E2 E3]]|[E1 [E2 E3]]]]];
+  try discriminate E1; try discriminate E3; subst.
+Ltac fin_goal K := first [solve [vm_compute; tauto] | exfalso; revert K; notin_keys].
+
+Ltac add_ok :=
+  split; [split; [split; [notin_keys|split; [|intros m c []]]|split; [discriminate|vm_compute; reflexivity]]|];
+  [ let m := fresh "m" in let p := fresh "p" in let H := fresh "H" in
+    intros m p H; vm_compute in H; repeat (destruct H as [H|H]; [inversion H; subst; split; [vm_compute; tauto|reflexivity]|]); destruct H
+  | split; [vm_compute; reflexivity|]; split;
+    [ let K := fresh "K" in let H := fresh "H" in intros p m K H; succ_cases H; fin_goal K
+    | let K := fresh "K" in let H := fresh "H" in intros m c K H; succ_cases H; fin_goal K ] ].
+
+Ltac set_ok := split; [split; [vm_compute; tauto|exact I]|split; vm_compute; reflexivity].
+
+Example da1 : op_ok2 demo_succ dg0 do1. Proof. add_ok. Qed.
+Example da2 : op_ok2 demo_succ dg1 do2. Proof. add_ok. Qed.
+Example da3 : op_ok2 demo_succ dg2 do3. Proof. add_ok. Qed.
+Example da4 : op_ok2 demo_succ dg3 do4. Proof. set_ok. Qed.
+Example da5 : op_ok2 demo_succ dg4 do5. Proof. set_ok. Qed.
+Example da6 : op_ok2 demo_succ dg5 do6. Proof. set_ok. Qed.
+Example da7 : op_ok2 demo_succ dg6 do7. Proof. set_ok. Qed.
+Example de1 : (bk_err (apply_op true bd0 dg0 do1) < ERR_ASSERT)%N. Proof. vm_compute. reflexivity. Qed.
+Example de2 : (bk_err (apply_op true bd0 dg1 do2) < ERR_ASSERT)%N. Proof. vm_compute. reflexivity. Qed.
+Example de3 : (bk_err (apply_op true bd0 dg2 do3) < ERR_ASSERT)%N. Proof. vm_compute. reflexivity. Qed.
+Example de4 : (bk_err (apply_op true bd0 dg3 do4) < ERR_ASSERT)%N. Proof. vm_compute. reflexivity. Qed.
+Example de5 : (bk_err (apply_op true bd0 dg4 do5) < ERR_ASSERT)%N. Proof. vm_compute. reflexivity. Qed.
+Example de6 : (bk_err (apply_op true bd0 dg5 do6) < ERR_ASSERT)%N. Proof. vm_compute. reflexivity. Qed.
+Example de7 : (bk_err (apply_op true bd0 dg6 do7) < ERR_ASSERT)%N. Proof. vm_compute. reflexivity. Qed.
+Example de8 : (bk_err (apply_op true bd0 demo_G demo_read) < ERR_ASSERT)%N. Proof. vm_compute. reflexivity. Qed.
+
+Lemma steps_ok_cons : forall succ bd g o t, op_ok2 succ g o -> (bk_err (apply_op true bd g o) < ERR_ASSERT)%N ->
+  steps_ok succ bd (apply_op true bd g o) t -> steps_ok succ bd g (o :: t).
+Proof. intros. cbn [steps_ok]. auto. Qed.
+
+Example ds8 : steps_ok demo_succ bd0 demo_G [demo_read].
+Proof. apply steps_ok_cons; [exact demo_read_ok|exact de8|exact I]. Qed.
+Example ds7 : steps_ok demo_succ bd0 dg6 [do7; demo_read].
+Proof. apply steps_ok_cons; [exact da7|exact de7|]. pose proof ds8 as S. unfold demo_G in S at 1. exact S. Qed.
+Example ds6 : steps_ok demo_succ bd0 dg5 [do6; do7; demo_read].
+Proof. apply steps_ok_cons; [exact da6|exact de6|]. pose proof ds7 as S. unfold dg6 in S at 1. exact S. Qed.
+Example ds5 : steps_ok demo_succ bd0 dg4 [do5; do6; do7; demo_read].
+Proof. apply steps_ok_cons; [exact da5|exact de5|]. pose proof ds6 as S. unfold dg5 in S at 1. exact S. Qed.
+Example ds4 : steps_ok demo_succ bd0 dg3 [do4; do5; do6; do7; demo_read].
+Proof. apply steps_ok_cons; [exact da4|exact de4|]. pose proof ds5 as S. unfold dg4 in S at 1. exact S. Qed.
+Example ds3 : steps_ok demo_succ bd0 dg2 [do3; do4; do5; do6; do7; demo_read].
+Proof. apply steps_ok_cons; [exact da3|exact de3|]. pose proof ds4 as S. unfold dg3 in S at 1. exact S. Qed.
+Example ds2 : steps_ok demo_succ bd0 dg1 [do2; do3; do4; do5; do6; do7; demo_read].
+Proof. apply steps_ok_cons; [exact da2|exact de2|]. pose proof ds3 as S. unfold dg2 in S at 1. exact S. Qed.
+(** the hypotheses of C19_fixpoint / C19_reload_reproduces hold for this history *)
+Example demo_steps_ok : steps_ok demo_succ bd0 (newBook 1 100) [do1; do2; do3; do4; do5; do6; do7; demo_read].
+Proof. apply steps_ok_cons; [exact da1|exact de1|]. pose proof ds2 as S. unfold dg1 in S at 1. exact S. Qed.
 
 (** what the theorems predict is what happens: the reloaded example has the saved values *)
 Example demo_reload_values :
